@@ -328,6 +328,14 @@ func c05bInputWrites(p *Pkg, rel string, out *[]c05bSite) {
 								}
 							}
 						}
+					case strings.HasSuffix(pkgPathOf(recv), "/dawgs/graph"):
+						// a method of a library value (graph.Properties, Node, Relationship, Kinds, …): such values reach the
+						// translator only as parameter VALUES, i.e. they belong to the caller. Whether the method writes
+						// through its receiver is decided against the C12 API table (`mutates`).
+						tn := strings.TrimPrefix(types.TypeString(recv, func(*types.Package) string { return "" }), "*")
+						if !strings.HasPrefix(tn, "IndexedSlice[") { // the translator's own generic container, never a caller's value
+							add(x.Pos(), "graph-method-call", tn+"."+fun.Sel.Name, "caller-value")
+						}
 					case strings.HasSuffix(types.TypeString(recv, nil), "pgsql.KindMapper") || strings.HasSuffix(types.TypeString(recv, nil), "contextAwareKindMapper"):
 						cls := "read"
 						if fun.Sel.Name == "AssertKinds" {
